@@ -256,6 +256,20 @@ def history(el, ops):
             if not r.ok:
                 return F('none-does-not-remove', t, inp, {'step': i, 'exc': r.etype}, 'removed', r.site)
             model.pop(op[1], None)
+        elif op[0] == 'raw':
+            # any value: the verdict of an assignment must not depend on what is currently stored (validation is
+            # a function of the attribute's type and the offered value only) - compared with a fresh element
+            r = call(setattr, e, py_name(op[1].split(':')[-1]), op[2])
+            rf0 = call(cls_for(el), *ctor_args(el))
+            rf = call(setattr, rf0.value, py_name(op[1].split(':')[-1]), op[2]) if rf0.ok else None
+            if rf is not None and r.ok != rf.ok:
+                return F('assignment-verdict-depends-on-stored-value', t, inp,
+                         {'step': i, 'value': repr(op[2]), 'here': r.verdict(), 'fresh': rf.verdict()},
+                         'same verdict as on a fresh element', r.site or rf.site)
+            if r.ok:
+                model[op[1]] = op[2]
+            elif dict(e.attributes) != before:
+                return F('failed-assignment-stored-something', t, inp, dict(e.attributes), before)
         elif op[0] == 'bad':
             _, pv = invalid_value(decl[op[1]])
             r = call(setattr, e, py_name(op[1].split(':')[-1]), pv)
@@ -369,7 +383,7 @@ def run_shard(ctx, shard, acc):
         setq = set()
         flags = set()
         for _ in range(data.draw(st.integers(1, 10 if ctx.quick else 25))):
-            k = data.draw(st.sampled_from(['set', 'set', 'set', 'none', 'bad', 'undeclared']))
+            k = data.draw(st.sampled_from(['set', 'set', 'set', 'none', 'bad', 'undeclared', 'raw', 'raw']))
             a = data.draw(st.sampled_from(attrs))
             if k == 'set':
                 txt = a['fixed'] or data.draw(st.sampled_from(lexical.valid_texts(a['type'])))
@@ -380,6 +394,19 @@ def run_shard(ctx, shard, acc):
                     flags.add('overwrite')
                 setq.add(a['qname'])
                 ops.append(['set', a['qname'], pv])
+            elif k == 'raw':
+                # values that compare equal to a plausible stored value but have another Python type, and other
+                # representation-dependent values: only the independence of the verdict from the history is asserted
+                cur = next((o[2] for o in reversed(ops) if o[0] in ('set', 'raw') and o[1] == a['qname']), None)
+                pool = [1, 1.0, True, 0, 0.0, False, 2, 2.0, '1', '2', 1.5, '', 'yes']
+                if isinstance(cur, bool):
+                    pool += [int(cur), float(cur)]
+                elif isinstance(cur, int):
+                    pool += [float(cur), str(cur), cur == 1]
+                elif isinstance(cur, float):
+                    pool += [int(cur)] if cur == int(cur) else []
+                flags.add('raw-overwrite' if a['qname'] in setq else 'raw-first')
+                ops.append(['raw', a['qname'], data.draw(st.sampled_from(pool))])
             elif k == 'none':
                 if a['qname'] in setq:
                     flags.add('removal')
